@@ -4,7 +4,7 @@ from hypothesis import strategies as st
 from .. import kpn, kpn_many
 from .. import worker as W
 from ..oracle import crash_failure
-from ..runner import Outcome
+from ..runner import Failure, Outcome, enc
 from . import kpncommon as K
 from .c07 import labels_of, run_many
 
@@ -41,6 +41,9 @@ def strategy(hazards):
 
 
 def run_case(case, ctx):
+    if case and case[0] == "scenario":
+        n, s_, o, w = next(x for x in SCENARIOS if x[0] == case[1])
+        return run_scenario(n, s_, o, w, ctx)
     net, sel = case
     if net.get("mode") == "M":
         return run_many(PROPERTY, case, ctx, kpn_many.progress_failure)
@@ -61,3 +64,68 @@ def run_case(case, ctx):
     labels = labels_of(net, m) + (["nontrivial"] if nontrivial else [])
     return Outcome(key=ev["src"], nontrivial=nontrivial, labels=labels, failure=fail,
                    sample={"caps": net["caps"], "scripts": [[list(o) for o in s] for s in net["scripts"]]}, runs=runs)
+
+
+# ------------------------------------------------------------------------------------------- hand written scenarios
+# Scheduler situations the determinate networks cannot express (a fiber other than the writer closes, a sender is
+# parked when the channel closes ...). (name, program, stdout, outcome): outcome "ok" or "deadlock".
+SCENARIOS = [
+    ("close-with-sync-send-in-flight-24c5a7b",
+     "let c = chan(); let d = chan(1);
+fn a(c, d) { c <- 1; print('sent'); d <- 2; }
+fn cl(c) { c.close(); }
+"
+     "launch a(c, d); launch cl(c);
+print(<- c); print(<- d);", "1
+sent
+2
+", "ok"),
+    ("producer-consumer-joined-by-main",
+     "let a = chan(); let r1 = chan(1); let r2 = chan(1);
+fn p(a, r) { for i in 3.times() { a <- i; } r <- 'p done'; }
+"
+     "fn q(a, r) { let s = 0; for i in 3.times() { s = s + (<- a); } r <- s; }
+launch p(a, r1); launch q(a, r2);
+"
+     "print(<- r1); print(<- r2);", "p done
+3
+", "ok"),
+    ("receive-from-closed-drained",
+     "let c = chan(2); c <- 1; c <- 2; c.close(); print(<- c); print(<- c); print(<- c);", "1
+2
+nil
+", "ok"),
+    ("send-on-closed-raises",
+     "let c = chan(1); c.close(); try { c <- 1; print('sent'); } catch e { print('closed'); }", "closed
+", "ok"),
+    ("main-blocked-forever", "let c = chan(); print('before'); print(<- c);", "before
+", "deadlock"),
+    ("fiber-blocked-main-finishes",
+     "let c = chan(); fn f(c) { print(<- c); } launch f(c); print('main done');", "main done
+", "ok"),
+]
+
+
+def run_scenario(name, src, want_out, want, ctx):
+    fail = None
+    runs = 0
+    for variant in ("dbg", "rel"):
+        r = ctx.worker(variant).run(src, budget=2_000_000)
+        runs += 1
+        fail = crash_failure(PROPERTY, r, src, variant) if r.get("outcome") != "budget" else None
+        got = "deadlock" if "Fatal error deadlock." in (r.get("stderr") or "") else r.get("outcome")
+        if fail is None and (got != want or (r.get("stdout") or "") != want_out):
+            fail = Failure("%s/scenario/%s" % (PROPERTY, name),
+                           "scenario %s on %s: expected %s with stdout %r, got %s with stdout %r
+%s
+--- source
+%s" %
+                           (name, variant, want, want_out, got, r.get("stdout"), (r.get("stderr") or "")[-300:], src),
+                           {"source": src, "case": enc(("scenario", name))})
+        if fail is not None:
+            break
+    return Outcome(key="scenario:" + name, nontrivial=True, labels=["scenario"], failure=fail, runs=runs)
+
+
+def extra(tier, ctx):
+    return [run_scenario(n, s_, o, w, ctx) for (n, s_, o, w) in SCENARIOS]
